@@ -173,6 +173,31 @@ def run(ctx):
                ((q, copy.deepcopy(x), l) for q, x, l in get_hmf("mean_density0", framework=Transfer, fast_kwargs=FAST["Transfer"], transfer_model="EH", cosmo_params=vals))]
         if got[1] != {"H0": 75.0}:
             viol("dict-list-elements-merge", f"get_hmf(cosmo_params=[{{'Om0':0.25}},{{'H0':75.0}}]): second result has cosmo_params={got[1]} (merged), a fresh framework built with that combination has {{'H0': 75.0}}", {"call": "get_hmf('mean_density0', framework=Transfer, transfer_model='EH', cosmo_params=[{'Om0':0.25},{'H0':75.0}])"})
+    # user subclasses of the frameworks, whatever their names look like (leading or trailing underscores): same enumeration, same ordering rule
+    try:
+        with warnings.catch_warnings():
+            warnings.simplefilter("ignore")
+            from hmf.mass_function.hmf import MassFunction as _MFc
+            from hmf.density_field.transfer import Transfer as _Trc
+
+            class _PrivateMF(_MFc):
+                pass
+
+            class _PrivateTransfer_(_Trc):
+                pass
+            for fw_, qs_, kwl_ in ((_PrivateMF, ["dndm"], dict(FAST["MassFunction"], z=[0.0, 1.0], hmf_model=["PS", "SMT"])), (_PrivateTransfer_, ["power"], dict(FAST["Transfer"], z=[0.0, 1.0], n=[0.9, 1.0]))):
+                call_ = {"framework": fw_.__name__, "lists": {k_: v_ for k_, v_ in kwl_.items() if isinstance(v_, list)}, "quantities": qs_}
+                try:
+                    order_ = get_best_param_order(fw_, qs_, **{k_: v_ for k_, v_ in kwl_.items() if not isinstance(v_, list)})
+                    items_ = list(get_hmf(qs_, framework=fw_, fast_kwargs={k_: v_ for k_, v_ in kwl_.items() if not isinstance(v_, list)}, **copy.deepcopy(kwl_)))
+                except Exception as e:
+                    viol("user-subclass/raises", f"get_hmf / get_best_param_order on the user subclass `{fw_.__name__}` raised {type(e).__name__}: {str(e)[:100]}", call_)
+                    continue
+                nfresh += 1
+                if len(items_) != 4 or sorted(order_) != sorted(fw_(**{k_: v_ for k_, v_ in kwl_.items() if not isinstance(v_, list)}).parameter_values):
+                    viol("user-subclass/enumeration", f"user subclass `{fw_.__name__}`: {len(items_)} results for a 2 x 2 grid, or the parameter order is not a permutation of all parameters", call_)
+    except Exception as e:
+        out["broken"].append({"kind": "harness", "what": f"user-subclass scenario raised {type(e).__name__}: {e}"})
     # list-valued cosmo_model whose elements share their astropy name (clones of one model; all are called "Planck15 (modified)"):
     # each yielded result belongs to its own cosmology
     try:
